@@ -106,7 +106,12 @@ def replay_cases(c, binp, cases, tag):
     outp = os.path.join(c.work, "cases_%s_out.ndjson" % tag)
     write_ndjson(inp, cases)
     rc, so = c.sh([binp, "c11-replay", inp, outp], timeout=3000)
-    if rc != 0:
+    if rc is not None and rc < 0:
+        # the harness process was killed by a signal while it executed the code under test (only unsafe
+        # code in /repo can do that): an observation, not a tool problem (DESIGN.md S1)
+        c.violation("Crash:replay:signal%d" % -rc, "the replay harness died with signal %d while calling the path API (memory-unsafe behaviour of the code under test); cases processed so far are still judged" % -rc,
+                    {"kind": "crash", "step": "c11-replay"})
+    elif rc != 0:
         c.fail_tool("replay harness failed rc=%s %s" % (rc, (so or "")[-500:]))
     st = {"cases": 0, "mismatch": 0, "outcomes": {}, "flips": 0, "walks": 0, "nontrivial": 0}
     with open(outp) as f:
@@ -307,6 +312,10 @@ def run(c):
     resj = os.path.join(c.work, "trace_c11.json")
     runs = 1500 if thorough else 350
     rc, so = c.sh([binp, "record", ev, resj, "c11"], env={"VERIF_RUNS": runs}, timeout=3000)
+    if rc is not None and rc < 0:
+        c.violation("Crash:record:signal%d" % -rc, "the recording harness died with signal %d while calling the path API (memory-unsafe behaviour of the code under test)" % -rc,
+                    {"kind": "crash", "step": "record"})
+        return
     if rc != 0:
         c.fail_tool("record harness failed rc=%s %s" % (rc, (so or "")[-500:]))
     res = json.load(open(resj))
